@@ -61,6 +61,49 @@ def solve_vector_semantics(run, A, fn_qual, rule='R-API'):
     return n
 
 
+def _two_by_two_closed_form(alt):
+    """alt = np.stack([c0, c1], axis=-1) with c0, c1 polynomials in the entries Phi[..., i, j] of the (Hermitian) noise PSD and a[..., k] of the steering vector:
+    True / False when (c0, c1) is / is not proportional to adj(Phi) a = (Phi11 a0 - Phi01 a1, Phi00 a1 - Phi10 a0), None when the form is not of that kind.
+    conj(Phi[i, j]) is Phi[j, i] (the matrix was symmetrised).  Pure polynomial identity on the term graph (pbv/ratfun.py); nothing is evaluated."""
+    from ..ratfun import rational, NotRational, A as _A
+    alt = strip_views(alt)
+    if not (is_call_to(alt, 'numpy.stack') and const_val(call_arg(alt, None, 'axis')) == -1):
+        return None
+    items = strip_views(call_arg(alt, 0))
+    if items.op not in ('list', 'tuple') or len(items.args[0]) != 2:
+        return None
+
+    def entry(t, pname, n_idx):
+        t = strip_views(t)
+        if t.op == 'sub' and t.args[1].op == 'tuple' and len(t.args[1].args[0]) == n_idx + 1 and const_val(t.args[1].args[0][0]) is Ellipsis and derives(t.args[0], pname):
+            ks = [const_val(x) for x in t.args[1].args[0][1:]]
+            if all(isinstance(k, int) and not isinstance(k, bool) and k in (0, 1, -1, -2) for k in ks):
+                return tuple(k % 2 for k in ks)
+        return None
+
+    def classify(t):
+        b, cj = is_conj(t)
+        e2 = entry(b, 'noise_psd_matrix', 2)
+        if e2 is not None:
+            i, j = e2
+            return ('P', j, i) if cj else ('P', i, j)
+        e1 = entry(b, 'atf_vector', 1)
+        if e1 is not None and not cj:
+            return ('a', e1[0])
+        return None
+    try:
+        c0, c1 = (rational(x, classify) for x in items.args[0])
+    except NotRational:
+        return None
+    P = lambda i, j: _A(('P', i, j))
+    a = lambda k: _A(('a', k))
+    e0 = P(1, 1) * a(0) - P(0, 1) * a(1)
+    e1 = P(0, 0) * a(1) - P(1, 0) * a(0)
+    if c0.p.is_zero() and c1.p.is_zero():
+        return False
+    return (c0 * e1).same(c1 * e0)
+
+
 def check_mvdr(run, A):
     q = B + 'get_mvdr_vector'
     fn = A.prog.func(q)
@@ -144,6 +187,21 @@ def check_mvdr(run, A):
     okr = ins is not None and ins[1] == [-1] and strip_views(ins[0]) is s.term
     run.check(okr, 'R-ROLE', 'get_mvdr_vector: w = numerator / denominator[..., None]', fn.loc(), '', 'return value is not the numerator divided by the broadcast denominator',
               construct=f'R-ROLE::{q}::quotient')
+    # every alternative of the numerator comes out of a solver applied to the noise PSD (solve, or the per-bin lstsq of the fallback): a closed form written out by hand
+    # (2 x 2 adjugate, explicit inverse of a special size) is not followed - and is where a conjugate / transpose slips in unnoticed by the constraint w^H a = 1
+    if ret.op in ('binop', 'iop') and ret.args[0] == 'Div':
+        for alt in unwrap_gamma(ret.args[1]):
+            alt = strip_views(alt)
+            solved = any(call_parts(x)[0] in SOLVES or call_parts(x)[0] in ('numpy.linalg.lstsq', 'scipy.linalg.lstsq', 'numpy.linalg.inv') for x in walk_terms(alt, into_mu=True))
+            if not solved:
+                verdict = _two_by_two_closed_form(alt)
+                if verdict is None:
+                    run.unresolved('R-ROLE', 'get_mvdr_vector: the numerator is Phi_nn^-1 a on every path', fn.loc(getattr(alt, 'node', None)),
+                                   'an alternative of the numerator is not computed by a solver applied to the noise PSD (a hand-written closed form is not followed)')
+                else:
+                    run.check(verdict, 'R-ROLE', 'get_mvdr_vector: a closed form for two sensors is adj(Phi_nn) a up to a common factor', fn.loc(getattr(alt, 'node', None)), '',
+                              'the two hand-written components are not proportional to (Phi11 a0 - Phi01 a1, Phi00 a1 - Phi10 a0) with Phi10 = conj(Phi01): an off-diagonal entry and its '
+                              'conjugate are exchanged - the result is conj(Phi)^-1 a, still distortionless, no longer minimum variance', construct=f'R-ROLE::{q}::two-sensor-closed-form')
 
 
 def check_souden_wmwf(run, A):
